@@ -84,14 +84,23 @@ def main(tier):
         if tier == "quick" and len(declared) > 6:
             declared = declared[:3] + r.sample(declared[3:], 3)
         if mm.is_open_enum(ename):
-            custom = ["custom/value", "", "héllo \U0001F40D", "x" * 64] if is_str else [0, INT_MAX, 4242, 99]
+            custom = ["custom/value", "", "héllo \U0001F40D", "x" * 64, "MiXed-Case/UTF-7", "\u0130stanbul", " padded "] if is_str else [0, INT_MAX, 4242, 99]
+            if is_str and declared:
+                # custom values that merely LOOK like a declared one must survive unchanged
+                custom += [str(declared[0]).upper(), str(declared[0]).title() + "X"]
+                custom = [c for c in custom if c not in [v["value"] for v in e["values"]]]
             if e["type"]["name"] == "integer":
                 custom += [-(2**31), -7]
             outside = []
         else:
             custom = []
-            outside = ["__not_a_member__", ""] if is_str else [987654, 0 if 0 not in declared else 77]
-            outside = [o for o in outside if o not in declared]
+            allv = [v["value"] for v in e["values"]]
+            outside = ["__not_a_member__", ""] if is_str else [987654, 0 if 0 not in allv else 77]
+            if is_str:
+                # look-alikes of declared values: other case, surrounding blanks
+                for v in allv[:4]:
+                    outside += [v.upper(), v.title(), v.swapcase(), " " + v, v + " "]
+            outside = [o for o in dict.fromkeys(outside) if o not in allv]
         root_t = {"kind": "reference", "name": sname}
         for val, cat in [(v, "declared") for v in declared] + [(v, "custom") for v in custom] + [(v, "outside") for v in outside]:
             g = TGen(mm, rng_for(common.seed(), "C13", sname, steps, repr(val)), maxdepth=2, p_opt=0.0)
